@@ -290,11 +290,8 @@ func (fx *fixture) warmup() bool {
 	if _, err := fx.srv.AC.UpdateActionResult(ctx, &pb.UpdateActionResultRequest{ActionDigest: acDigest, ActionResult: ar}); err != nil {
 		return fail("UpdateActionResult", err)
 	}
-	if fx.p.validateAC {
-		// (with validation disabled the HTTP front end keeps its own "raw" keyspace)
-		if _, err := fx.srv.AC.GetActionResult(ctx, &pb.GetActionResultRequest{ActionDigest: acDigest, InlineStdout: true, InlineOutputFiles: []string{"out/a"}}); err != nil {
-			return fail("GetActionResult", err)
-		}
+	if _, err := fx.srv.AC.GetActionResult(ctx, &pb.GetActionResultRequest{ActionDigest: acDigest, InlineStdout: true, InlineOutputFiles: []string{"out/a"}}); err != nil {
+		return fail("GetActionResult", err)
 	}
 	if _, err := fx.srv.FindMissing(ctx, pl.small[0].digest(), &pb.Digest{Hash: lib.RandHash(rng), SizeBytes: 5}); err != nil {
 		return fail("FindMissingBlobs", err)
@@ -393,10 +390,10 @@ func (fx *fixture) warmup() bool {
 	_, _ = fx.srv.BSRead(ctx, lib.ResBlobs(absent, 10), 0, 0)
 	_, _ = fx.srv.AC.GetActionResult(ctx, &pb.GetActionResultRequest{ActionDigest: &pb.Digest{Hash: absent, SizeBytes: 10}})
 
-	if fx.child.Exited() {
-		return fail("end", nil)
+	fx.lastOp = &op{ep: "warmup", gen: "warmup.well-formed-requests"}
+	if !fx.livenessCheck("warm-up") {
+		return false
 	}
-	fx.scanLog()
 	fx.r.Count("warmup.done")
 	return fx.takeBaseline()
 }
